@@ -1,6 +1,7 @@
 package main
 
 import (
+	"crypto/sha256"
 	"fmt"
 	"go/ast"
 	"go/importer"
@@ -8,6 +9,7 @@ import (
 	"go/token"
 	"go/types"
 	"os"
+	"os/exec"
 	"path/filepath"
 	"sort"
 	"strings"
@@ -32,8 +34,538 @@ func simulatorDir(rel string) bool {
 	return true
 }
 
-// genSites lists (with go/types, so the operand's type decides) every `range` over a map,
-// every use of wall-clock / random sources and every `go` statement in the simulator packages.
+// ---------------------------------------------------------------- site records
+
+type mapSite struct {
+	file, fn, operand string
+	key, val          string
+	body              string   // normalised source of the whole range statement
+	context           string   // following statements of the same block that mention a variable written in the body
+	writes            []string // assignment targets in the body that the body does not declare itself
+	locals            []string // variables the body declares (:=)
+	calls             []string // called functions in the body
+	exits             []string // return / break / continue / goto / panic inside the body
+	callees           []string // same-package functions called from the body, `name#hash-of-their-source`
+	fieldsWritten     []string // struct fields assigned by the body or by those callees (pkg.Type.field)
+	hash              string   // sha256 (first 16 hex) of body, context and callee sources
+}
+
+type clockSite struct {
+	file, fn, what string
+	kind           string // how the value is consumed: field | local | arg | stmt | return | import | other
+	consumer       string // field: pkg.Type.field ; arg: callee ; local: variable
+	stmt           string // normalised enclosing statement
+}
+
+type fieldRead struct{ field, file, fn, use, callee, pkg, stmt string }
+
+type goSite struct {
+	file, fn, started string
+	hash              string
+	skeleton          []string
+}
+
+type simpleSite struct{ file, fn, what string }
+
+// sources of values that differ from run to run: package path -> function names ("*" = all)
+var nondetFuncs = map[string][]string{
+	"time":                   {"Now", "Since", "Until", "Sleep", "After", "Tick", "NewTimer", "NewTicker", "AfterFunc"},
+	"math/rand":              {"*"},
+	"math/rand/v2":           {"*"},
+	"crypto/rand":            {"*"},
+	"github.com/rs/xid":      {"New", "NewWithTime"},
+	"github.com/google/uuid": {"*"},
+	"os":                     {"Getpid", "Getppid", "Hostname"},
+	"runtime":                {"NumCPU", "NumGoroutine", "GOMAXPROCS"},
+}
+
+func isNondet(pkg, name string) bool {
+	l, ok := nondetFuncs[pkg]
+	if !ok {
+		return false
+	}
+	for _, n := range l {
+		if n == "*" || n == name {
+			return true
+		}
+	}
+	return false
+}
+
+func shortPkg(p string) string {
+	if i := strings.LastIndex(p, "/"); i >= 0 {
+		return p[i+1:]
+	}
+	return p
+}
+
+func normText(n ast.Node) string { return strings.Join(strings.Fields(nodeString(n)), " ") }
+
+func hash16(parts ...string) string {
+	h := sha256.New()
+	for _, p := range parts {
+		h.Write([]byte(p))
+		h.Write([]byte{0})
+	}
+	return fmt.Sprintf("%x", h.Sum(nil))[:16]
+}
+
+// leanPairList renders "op\x00arg" tokens as a Lean list of pairs.
+func leanPairList(l []string) string {
+	q := make([]string, len(l))
+	for i, t := range l {
+		op, arg, _ := strings.Cut(t, "\x00")
+		q[i] = "(" + leanStr(op) + ", " + leanStr(arg) + ")"
+	}
+	return "[" + strings.Join(q, ", ") + "]"
+}
+
+func uniqSorted(l []string) []string {
+	m := map[string]bool{}
+	var out []string
+	for _, s := range l {
+		if !m[s] {
+			m[s] = true
+			out = append(out, s)
+		}
+	}
+	sort.Strings(out)
+	return out
+}
+
+// baseIdent returns the leftmost identifier of a selector / index / star expression.
+func baseIdent(e ast.Expr) string {
+	for {
+		switch x := e.(type) {
+		case *ast.Ident:
+			return x.Name
+		case *ast.SelectorExpr:
+			e = x.X
+		case *ast.IndexExpr:
+			e = x.X
+		case *ast.StarExpr:
+			e = x.X
+		case *ast.ParenExpr:
+			e = x.X
+		default:
+			return ""
+		}
+	}
+}
+
+// pkgCtx is what the per-package passes need.
+type pkgCtx struct {
+	fset  *token.FileSet
+	info  *types.Info
+	decls map[*types.Func]*ast.FuncDecl
+	root  string
+}
+
+func (c *pkgCtx) calleeFunc(call *ast.CallExpr) *types.Func {
+	var id *ast.Ident
+	switch f := call.Fun.(type) {
+	case *ast.Ident:
+		id = f
+	case *ast.SelectorExpr:
+		id = f.Sel
+	}
+	if id == nil {
+		return nil
+	}
+	if fn, ok := c.info.Uses[id].(*types.Func); ok {
+		return fn
+	}
+	return nil
+}
+
+// fieldKey names a struct field as pkg.Type.field (the struct that DECLARES the field).
+func (c *pkgCtx) fieldKey(sel *ast.SelectorExpr) string {
+	s, ok := c.info.Selections[sel]
+	if !ok || s.Kind() != types.FieldVal {
+		return ""
+	}
+	v, ok := s.Obj().(*types.Var)
+	if !ok || !v.IsField() {
+		return ""
+	}
+	// find the struct type that declares the field by walking the selection path
+	t := s.Recv()
+	idx := s.Index()
+	owner := ""
+	for i, k := range idx {
+		for {
+			if p, ok := t.(*types.Pointer); ok {
+				t = p.Elem()
+				continue
+			}
+			break
+		}
+		if n, ok := t.(*types.Named); ok {
+			owner = n.Obj().Name()
+			if n.Obj().Pkg() != nil {
+				owner = shortPkg(n.Obj().Pkg().Path()) + "." + owner
+			}
+		}
+		st, ok := t.Underlying().(*types.Struct)
+		if !ok {
+			return ""
+		}
+		f := st.Field(k)
+		if i == len(idx)-1 {
+			return owner + "." + f.Name()
+		}
+		t = f.Type()
+	}
+	return ""
+}
+
+// ---------------------------------------------------------------- map sites
+
+func (c *pkgCtx) analyseMapLoop(rel, fn string, x *ast.RangeStmt, parents []ast.Node) mapSite {
+	s := mapSite{file: rel, fn: fn, operand: nodeString(x.X)}
+	if x.Key != nil {
+		s.key = nodeString(x.Key)
+	}
+	if x.Value != nil {
+		s.val = nodeString(x.Value)
+	}
+	s.body = normText(x)
+	written := map[string]bool{}
+	var calleeSrc []string
+	seenCallee := map[*types.Func]bool{}
+	fieldWrites := func(n ast.Node) {
+		ast.Inspect(n, func(nd ast.Node) bool {
+			var lhs []ast.Expr
+			switch y := nd.(type) {
+			case *ast.AssignStmt:
+				lhs = y.Lhs
+			case *ast.IncDecStmt:
+				lhs = []ast.Expr{y.X}
+			}
+			for _, l := range lhs {
+				for {
+					if ix, ok := l.(*ast.IndexExpr); ok {
+						l = ix.X
+						continue
+					}
+					break
+				}
+				if sel, ok := l.(*ast.SelectorExpr); ok {
+					if k := c.fieldKey(sel); k != "" {
+						s.fieldsWritten = append(s.fieldsWritten, k)
+					}
+				}
+			}
+			return true
+		})
+	}
+	fieldWrites(x.Body)
+	ast.Inspect(x.Body, func(nd ast.Node) bool {
+		switch y := nd.(type) {
+		case *ast.AssignStmt:
+			for _, l := range y.Lhs {
+				t := normText(l)
+				if t == "_" {
+					continue
+				}
+				if y.Tok == token.DEFINE {
+					s.locals = append(s.locals, t)
+				} else {
+					s.writes = append(s.writes, t)
+					written[baseIdent(l)] = true
+				}
+			}
+		case *ast.IncDecStmt:
+			s.writes = append(s.writes, normText(y.X))
+			written[baseIdent(y.X)] = true
+		case *ast.ReturnStmt:
+			s.exits = append(s.exits, "return")
+		case *ast.BranchStmt:
+			s.exits = append(s.exits, y.Tok.String())
+		case *ast.GoStmt:
+			s.exits = append(s.exits, "go")
+		case *ast.SendStmt:
+			s.writes = append(s.writes, "send:"+normText(y.Chan))
+		case *ast.CallExpr:
+			name := normText(y.Fun)
+			s.calls = append(s.calls, name)
+			if name == "panic" {
+				s.exits = append(s.exits, "panic")
+			}
+			if name == "delete" && len(y.Args) > 0 {
+				s.writes = append(s.writes, "delete:"+normText(y.Args[0]))
+				written[baseIdent(y.Args[0])] = true
+			}
+			if f := c.calleeFunc(y); f != nil && !seenCallee[f] {
+				seenCallee[f] = true
+				if d, ok := c.decls[f]; ok {
+					h := hash16(normText(d))
+					s.callees = append(s.callees, f.Name()+"#"+h)
+					calleeSrc = append(calleeSrc, h)
+					fieldWrites(d.Body)
+				}
+			}
+		}
+		return true
+	})
+	s.writes = uniqSorted(s.writes)
+	s.locals = uniqSorted(s.locals)
+	s.calls = uniqSorted(s.calls)
+	s.exits = uniqSorted(s.exits)
+	s.fieldsWritten = uniqSorted(s.fieldsWritten)
+	sort.Strings(s.callees)
+	sort.Strings(calleeSrc)
+	// context: the statements that follow the loop in its block, while they mention a variable
+	// the body writes (sorting / returning the collected slice, …)
+	if len(parents) > 0 {
+		if blk, ok := parents[len(parents)-1].(*ast.BlockStmt); ok {
+			after := false
+			var ctx []string
+			for _, st := range blk.List {
+				if st == ast.Stmt(x) {
+					after = true
+					continue
+				}
+				if !after {
+					continue
+				}
+				mentions := false
+				ast.Inspect(st, func(nd ast.Node) bool {
+					if id, ok := nd.(*ast.Ident); ok && written[id.Name] {
+						mentions = true
+					}
+					return !mentions
+				})
+				if !mentions {
+					break
+				}
+				ctx = append(ctx, normText(st))
+			}
+			s.context = strings.Join(ctx, " ; ")
+		}
+	}
+	s.hash = hash16(append([]string{s.body, s.context}, calleeSrc...)...)
+	return s
+}
+
+// ---------------------------------------------------------------- goroutine skeletons
+
+// skeleton lists, in source order, the synchronisation operations and the writes to fields of
+// the receiver / captured variables of a function body, with block structure.
+func (c *pkgCtx) skeleton(body *ast.BlockStmt, recv string) []string {
+	var out []string
+	var walkStmt func(st ast.Stmt)
+	var walkExpr func(e ast.Node)
+	walkExpr = func(e ast.Node) {
+		if e == nil {
+			return
+		}
+		ast.Inspect(e, func(nd ast.Node) bool {
+			switch y := nd.(type) {
+			case *ast.FuncLit:
+				out = append(out, "open\x00func")
+				for _, st := range y.Body.List {
+					walkStmt(st)
+				}
+				out = append(out, "close\x00")
+				return false
+			case *ast.UnaryExpr:
+				if y.Op == token.ARROW {
+					out = append(out, "recv\x00"+normText(y.X))
+				}
+			case *ast.CallExpr:
+				name := normText(y.Fun)
+				switch {
+				case strings.HasSuffix(name, ".Lock") || strings.HasSuffix(name, ".RLock"):
+					out = append(out, "lock\x00"+strings.TrimSuffix(strings.TrimSuffix(name, ".Lock"), ".RLock"))
+				case strings.HasSuffix(name, ".Unlock") || strings.HasSuffix(name, ".RUnlock"):
+					out = append(out, "unlock\x00"+strings.TrimSuffix(strings.TrimSuffix(name, ".Unlock"), ".RUnlock"))
+				case name == "verifYield" || name == "recover":
+				default:
+					for _, a := range y.Args {
+						walkExpr(a)
+					}
+					if _, isLit := y.Fun.(*ast.FuncLit); isLit {
+						walkExpr(y.Fun)
+					}
+					out = append(out, "call\x00"+name)
+					return false
+				}
+			}
+			return true
+		})
+	}
+	block := func(tag string, l []ast.Stmt) {
+		out = append(out, tag)
+		for _, st := range l {
+			walkStmt(st)
+		}
+		out = append(out, "close\x00")
+	}
+	walkStmt = func(st ast.Stmt) {
+		switch y := st.(type) {
+		case nil:
+		case *ast.BlockStmt:
+			for _, s2 := range y.List {
+				walkStmt(s2)
+			}
+		case *ast.ExprStmt:
+			walkExpr(y.X)
+		case *ast.SendStmt:
+			walkExpr(y.Value)
+			out = append(out, "send\x00"+normText(y.Chan))
+		case *ast.AssignStmt:
+			for _, r := range y.Rhs {
+				walkExpr(r)
+			}
+			for _, l := range y.Lhs {
+				if y.Tok == token.DEFINE {
+					continue
+				}
+				if _, isSel := l.(*ast.SelectorExpr); isSel || baseIdent(l) == recv {
+					out = append(out, "write\x00"+normText(l))
+				} else if id, ok := l.(*ast.Ident); ok && id.Name != "_" {
+					out = append(out, "writelocal\x00"+id.Name)
+				}
+			}
+		case *ast.IncDecStmt:
+			if _, isSel := y.X.(*ast.SelectorExpr); isSel {
+				out = append(out, "write\x00"+normText(y.X))
+			}
+		case *ast.GoStmt:
+			out = append(out, "go\x00"+normText(y.Call.Fun))
+		case *ast.DeferStmt:
+			name := normText(y.Call.Fun)
+			switch {
+			case strings.HasSuffix(name, ".Unlock"):
+				out = append(out, "defer-unlock\x00"+strings.TrimSuffix(name, ".Unlock"))
+			default:
+				if lit, ok := y.Call.Fun.(*ast.FuncLit); ok {
+					out = append(out, "open\x00defer")
+					for _, s2 := range lit.Body.List {
+						walkStmt(s2)
+					}
+					out = append(out, "close\x00")
+				} else {
+					out = append(out, "defer-call\x00"+name)
+				}
+			}
+		case *ast.ReturnStmt:
+			for _, r := range y.Results {
+				walkExpr(r)
+			}
+			out = append(out, "term\x00return")
+		case *ast.BranchStmt:
+			out = append(out, "term\x00"+y.Tok.String())
+		case *ast.IfStmt:
+			walkStmt(y.Init)
+			walkExpr(y.Cond)
+			block("open\x00if", y.Body.List)
+			if y.Else != nil {
+				switch e := y.Else.(type) {
+				case *ast.BlockStmt:
+					block("open\x00else", e.List)
+				default:
+					out = append(out, "open\x00else")
+					walkStmt(e)
+					out = append(out, "close\x00")
+				}
+			}
+		case *ast.ForStmt:
+			walkStmt(y.Init)
+			walkExpr(y.Cond)
+			block("open\x00for", y.Body.List)
+		case *ast.RangeStmt:
+			walkExpr(y.X)
+			block("open\x00for", y.Body.List)
+		case *ast.SelectStmt:
+			out = append(out, "open\x00select")
+			for _, cc := range y.Body.List {
+				cl := cc.(*ast.CommClause)
+				if cl.Comm == nil {
+					out = append(out, "open\x00default")
+				} else {
+					out = append(out, "open\x00case")
+					walkStmt(cl.Comm)
+				}
+				for _, s2 := range cl.Body {
+					walkStmt(s2)
+				}
+				out = append(out, "close\x00")
+			}
+			out = append(out, "close\x00")
+		case *ast.SwitchStmt:
+			walkStmt(y.Init)
+			walkExpr(y.Tag)
+			for _, cc := range y.Body.List {
+				block("open\x00if", cc.(*ast.CaseClause).Body)
+			}
+		case *ast.TypeSwitchStmt:
+			for _, cc := range y.Body.List {
+				block("open\x00if", cc.(*ast.CaseClause).Body)
+			}
+		case *ast.DeclStmt, *ast.EmptyStmt, *ast.LabeledStmt:
+		default:
+			out = append(out, "stmt\x00"+normText(st))
+		}
+	}
+	for _, st := range body.List {
+		walkStmt(st)
+	}
+	return out
+}
+
+// ---------------------------------------------------------------- clock / random consumers
+
+func (c *pkgCtx) classifyConsumer(call ast.Node, parents []ast.Node) (kind, consumer, stmt string) {
+	// innermost enclosing statement, and the node directly above the (possibly chained) call
+	var encl ast.Stmt
+	for i := len(parents) - 1; i >= 0; i-- {
+		if st, ok := parents[i].(ast.Stmt); ok {
+			encl = st
+			break
+		}
+	}
+	if encl == nil {
+		return "other", "", ""
+	}
+	stmt = normText(encl)
+	switch y := encl.(type) {
+	case *ast.AssignStmt:
+		if len(y.Lhs) == 1 {
+			l := y.Lhs[0]
+			if sel, ok := l.(*ast.SelectorExpr); ok {
+				if k := c.fieldKey(sel); k != "" {
+					// value passed through a call first? (e.g. byte(rand.Int()))
+					return "field", k, stmt
+				}
+				return "field", normText(l), stmt
+			}
+			if id, ok := l.(*ast.Ident); ok {
+				return "local", id.Name, stmt
+			}
+			return "store", normText(l), stmt
+		}
+		return "other", "", stmt
+	case *ast.ExprStmt:
+		if ce, ok := y.X.(*ast.CallExpr); ok {
+			if ce == call {
+				return "stmt", normText(ce.Fun), stmt
+			}
+			return "arg", normText(ce.Fun), stmt
+		}
+		return "other", "", stmt
+	case *ast.ReturnStmt:
+		return "return", "", stmt
+	}
+	return "other", "", stmt
+}
+
+// genSites lists (with go/types, so that types decide) every `range` over a map (and the other
+// ways of enumerating a map), every use of a wall-clock / random / per-process source with its
+// consumer, every `go` statement with the synchronisation skeleton of the started function,
+// every `select` with more than one communication, and every ordering of strings, in the
+// simulator packages.
 func genSites() {
 	root, _ := filepath.Abs(*repo)
 	cwd, _ := os.Getwd()
@@ -52,103 +584,429 @@ func genSites() {
 		return nil
 	})
 	sort.Strings(dirs)
-	type site struct{ file, fn, what string }
-	var maps, clocks, gos []site
-	for _, d := range dirs {
-		pkgs, err := parser.ParseDir(fset, d, func(fi os.FileInfo) bool {
-			return productFile(filepath.Join(d, fi.Name()))
-		}, 0)
-		if err != nil || len(pkgs) == 0 {
-			continue
-		}
-		for _, pkg := range pkgs {
-			var files []*ast.File
-			var names []string
-			for n := range pkg.Files {
-				names = append(names, n)
+	var maps []mapSite
+	var clocks []clockSite
+	var gos []goSite
+	var selects, strOrders []simpleSite
+	var reads []fieldRead
+	var allReads []fieldRead
+	scan := func(dirs []string) {
+		for _, d := range dirs {
+			pkgs, err := parser.ParseDir(fset, d, func(fi os.FileInfo) bool {
+				return productFile(filepath.Join(d, fi.Name()))
+			}, 0)
+			if err != nil || len(pkgs) == 0 {
+				continue
 			}
-			sort.Strings(names)
-			hasRange := false
-			for _, n := range names {
-				files = append(files, pkg.Files[n])
+			var pkgNames []string
+			for n := range pkgs {
+				pkgNames = append(pkgNames, n)
 			}
-			for _, f := range files {
-				ast.Inspect(f, func(nd ast.Node) bool {
-					if _, ok := nd.(*ast.RangeStmt); ok {
-						hasRange = true
-					}
-					return true
-				})
-			}
-			info := &types.Info{Types: map[ast.Expr]types.TypeAndValue{}}
-			if hasRange {
+			sort.Strings(pkgNames)
+			for _, pn := range pkgNames {
+				pkg := pkgs[pn]
+				var files []*ast.File
+				var names []string
+				for n := range pkg.Files {
+					names = append(names, n)
+				}
+				sort.Strings(names)
+				for _, n := range names {
+					files = append(files, pkg.Files[n])
+				}
+				info := &types.Info{
+					Types:      map[ast.Expr]types.TypeAndValue{},
+					Uses:       map[*ast.Ident]types.Object{},
+					Defs:       map[*ast.Ident]types.Object{},
+					Selections: map[*ast.SelectorExpr]*types.Selection{},
+				}
 				nerr := 0
-				conf := types.Config{Importer: imp, Error: func(err error) { nerr++ }}
+				var firstErr error
+				conf := types.Config{Importer: imp, Error: func(err error) {
+					if nerr == 0 {
+						firstErr = err
+					}
+					nerr++
+				}}
 				conf.Check(d, fset, files, info)
 				if nerr > 0 {
-					fatalf("sites: package %s does not type-check (%d errors); cannot decide which ranges are over maps", d, nerr)
+					fatalf("sites: package %s does not type-check (%d errors, first: %v); cannot decide which ranges are over maps", d, nerr, firstErr)
 				}
-			}
-			for _, f := range files {
-				rel, _ := filepath.Rel(root, fset.Position(f.Pos()).Filename)
-				// imports of random sources
-				for _, im := range f.Imports {
-					p := strings.Trim(im.Path.Value, `"`)
-					if p == "math/rand" || p == "math/rand/v2" || p == "crypto/rand" {
-						clocks = append(clocks, site{rel, "import", p})
-					}
-				}
-				for _, decl := range f.Decls {
-					fd, ok := decl.(*ast.FuncDecl)
-					if !ok || fd.Body == nil {
-						continue
-					}
-					fn := fd.Name.Name
-					if fd.Recv != nil && len(fd.Recv.List) == 1 {
-						fn = strings.TrimPrefix(nodeString(fd.Recv.List[0].Type), "*") + "." + fn
-					}
-					ast.Inspect(fd.Body, func(nd ast.Node) bool {
-						switch x := nd.(type) {
-						case *ast.RangeStmt:
-							if tv, ok := info.Types[x.X]; ok {
-								if _, isMap := tv.Type.Underlying().(*types.Map); isMap {
-									maps = append(maps, site{rel, fn, nodeString(x.X)})
-								}
-							}
-						case *ast.GoStmt:
-							started := nodeString(x.Call.Fun)
-							if _, isLit := x.Call.Fun.(*ast.FuncLit); isLit {
-								started = "func literal"
-							}
-							gos = append(gos, site{rel, fn, started})
-						case *ast.SelectorExpr:
-							if id, ok := x.X.(*ast.Ident); ok && id.Name == "time" && (x.Sel.Name == "Now" || x.Sel.Name == "Since" || x.Sel.Name == "Sleep" || x.Sel.Name == "After") {
-								clocks = append(clocks, site{rel, fn, "time." + x.Sel.Name})
+				ctx := &pkgCtx{fset: fset, info: info, decls: map[*types.Func]*ast.FuncDecl{}, root: root}
+				for _, f := range files {
+					for _, decl := range f.Decls {
+						if fd, ok := decl.(*ast.FuncDecl); ok {
+							if fn, ok := info.Defs[fd.Name].(*types.Func); ok {
+								ctx.decls[fn] = fd
 							}
 						}
-						return true
-					})
+					}
+				}
+				for _, f := range files {
+					rel, _ := filepath.Rel(root, fset.Position(f.Pos()).Filename)
+					// imports of random sources
+					for _, im := range f.Imports {
+						p := strings.Trim(im.Path.Value, `"`)
+						if p == "math/rand" || p == "math/rand/v2" || p == "crypto/rand" {
+							clocks = append(clocks, clockSite{file: rel, fn: "import", what: p, kind: "import"})
+						}
+					}
+					for _, decl := range f.Decls {
+						fd, ok := decl.(*ast.FuncDecl)
+						if !ok || fd.Body == nil {
+							continue
+						}
+						fn := fd.Name.Name
+						recv := ""
+						if fd.Recv != nil && len(fd.Recv.List) == 1 {
+							fn = strings.TrimPrefix(nodeString(fd.Recv.List[0].Type), "*") + "." + fn
+							if len(fd.Recv.List[0].Names) == 1 {
+								recv = fd.Recv.List[0].Names[0].Name
+							}
+						}
+						var parents []ast.Node
+						lhsOf := map[ast.Expr]bool{}
+						ast.Inspect(fd.Body, func(nd ast.Node) bool {
+							if nd == nil {
+								parents = parents[:len(parents)-1]
+								return true
+							}
+							switch x := nd.(type) {
+							case *ast.AssignStmt:
+								for _, l := range x.Lhs {
+									lhsOf[l] = true
+								}
+							case *ast.RangeStmt:
+								if tv, ok := info.Types[x.X]; ok {
+									if _, isMap := tv.Type.Underlying().(*types.Map); isMap {
+										maps = append(maps, ctx.analyseMapLoop(rel, fn, x, parents))
+									}
+								}
+							case *ast.GoStmt:
+								started := nodeString(x.Call.Fun)
+								g := goSite{file: rel, fn: fn, started: started}
+								if lit, isLit := x.Call.Fun.(*ast.FuncLit); isLit {
+									g.started = "func literal"
+									g.skeleton = ctx.skeleton(lit.Body, recv)
+									g.hash = hash16(normText(lit))
+								} else if f := ctx.calleeFunc(x.Call); f != nil {
+									if dcl, ok := ctx.decls[f]; ok {
+										r2 := ""
+										if dcl.Recv != nil && len(dcl.Recv.List) == 1 && len(dcl.Recv.List[0].Names) == 1 {
+											r2 = dcl.Recv.List[0].Names[0].Name
+										}
+										g.skeleton = ctx.skeleton(dcl.Body, r2)
+										g.hash = hash16(normText(dcl))
+									}
+								}
+								gos = append(gos, g)
+							case *ast.SelectStmt:
+								n := 0
+								hasDefault := false
+								for _, cc := range x.Body.List {
+									if cc.(*ast.CommClause).Comm != nil {
+										n++
+									} else {
+										hasDefault = true
+									}
+								}
+								if n >= 2 {
+									var cs []string
+									for _, cc := range x.Body.List {
+										if cm := cc.(*ast.CommClause).Comm; cm != nil {
+											cs = append(cs, normText(cm))
+										}
+									}
+									if hasDefault {
+										cs = append(cs, "default")
+									}
+									selects = append(selects, simpleSite{rel, fn, strings.Join(cs, " | ")})
+								}
+							case *ast.BinaryExpr:
+								if x.Op == token.LSS || x.Op == token.GTR || x.Op == token.LEQ || x.Op == token.GEQ {
+									if tv, ok := info.Types[x.X]; ok {
+										if b, ok := tv.Type.Underlying().(*types.Basic); ok && b.Info()&types.IsString != 0 {
+											strOrders = append(strOrders, simpleSite{rel, fn, normText(x)})
+										}
+									}
+								}
+							case *ast.CallExpr:
+								if f := ctx.calleeFunc(x); f != nil && f.Pkg() != nil {
+									pp, name := f.Pkg().Path(), f.Name()
+									if isNondet(pp, name) {
+										k, cons, st := ctx.classifyConsumer(x, parents)
+										clocks = append(clocks, clockSite{file: rel, fn: fn, what: shortPkg(pp) + "." + name, kind: k, consumer: cons, stmt: st})
+									}
+									// other ways of enumerating a map / ordering strings
+									full := pp + "." + name
+									if sig, ok := f.Type().(*types.Signature); ok && sig.Recv() != nil {
+										rt := sig.Recv().Type().String()
+										full = strings.TrimPrefix(rt, "*") + "." + name
+									}
+									switch full {
+									case "maps.Keys", "maps.Values", "maps.All", "golang.org/x/exp/maps.Keys", "golang.org/x/exp/maps.Values",
+										"reflect.Value.MapKeys", "reflect.Value.MapRange", "sync.Map.Range":
+										maps = append(maps, mapSite{file: rel, fn: fn, operand: normText(x), body: normText(x), hash: hash16(normText(x))})
+									case "sort.Strings", "strings.Compare", "sort.StringSlice.Sort", "sort.StringSlice.Less":
+										strOrders = append(strOrders, simpleSite{rel, fn, normText(x)})
+									}
+								}
+							case *ast.SelectorExpr:
+								if k := ctx.fieldKey(x); k != "" {
+									use, callee, cpkg := "read", "", ""
+									if lhsOf[ast.Expr(x)] {
+										use = "write"
+									} else if len(parents) > 0 {
+										switch p := parents[len(parents)-1].(type) {
+										case *ast.CallExpr:
+											if p.Fun != ast.Expr(x) {
+												use = "arg"
+												callee = normText(p.Fun)
+												if f := ctx.calleeFunc(p); f != nil && f.Pkg() != nil {
+													cpkg = f.Pkg().Path()
+												}
+											}
+										}
+									}
+									st := ""
+									for i := len(parents) - 1; i >= 0; i-- {
+										if s2, ok := parents[i].(ast.Stmt); ok {
+											if _, isBlk := s2.(*ast.BlockStmt); !isBlk {
+												st = normText(s2)
+												break
+											}
+										}
+									}
+									allReads = append(allReads, fieldRead{field: k, file: rel, fn: fn, use: use, callee: callee, pkg: cpkg, stmt: st})
+								}
+							}
+							parents = append(parents, nd)
+							return true
+						})
+					}
 				}
 			}
 		}
 	}
-	emit := func(b *strings.Builder, name, doc string, l []site) {
-		fmt.Fprintf(b, "/-- %s -/\ndef %s : List (String × String × String) := [\n", doc, name)
+	scan(dirs)
+
+	// the simulator's dependency Akita (engine, ports, memory system, tracing, …): the packages the
+	// runner links, scanned the same way; their sites are listed separately (audited, not modelled)
+	simMaps, simClocks, simGos, simSelects, simStr, simReads := maps, clocks, gos, selects, strOrders, allReads
+	maps, clocks, gos, selects, strOrders, allReads = nil, nil, nil, nil, nil, nil
+	listCmd := exec.Command("go", "list", "-f", "{{.ImportPath}} {{.Dir}}", "-deps", "github.com/sarchlab/mgpusim/v4/amd/samples/runner")
+	listCmd.Dir = root
+	listOut, err := listCmd.Output()
+	if err != nil {
+		fatalf("sites: cannot list the packages the runner links (go list -deps): %v", err)
+	}
+	var depDirs []string
+	depPrefix := ""
+	for _, ln := range strings.Split(string(listOut), "\n") {
+		f := strings.Fields(ln)
+		if len(f) == 2 && strings.HasPrefix(f[0], "github.com/sarchlab/akita/") {
+			depDirs = append(depDirs, f[1])
+			if k := strings.Index(f[1], "github.com/sarchlab/akita/"); k >= 0 {
+				depPrefix = f[1][:k]
+			}
+		}
+	}
+	if len(depDirs) == 0 {
+		fatalf("sites: go list found no Akita package among the runner's dependencies")
+	}
+	sort.Strings(depDirs)
+	scan(depDirs)
+	depMaps, depClocks, depGos := maps, clocks, gos
+	maps, clocks, gos, selects, strOrders, allReads = simMaps, simClocks, simGos, simSelects, simStr, simReads
+	depName := func(file string) string {
+		abs := file
+		if !filepath.IsAbs(abs) {
+			abs = filepath.Join(root, file)
+		}
+		return strings.TrimPrefix(filepath.Clean(abs), depPrefix)
+	}
+	// reads of the fields that receive a wall-clock / random value, when the field is declared
+	// in a simulator package (fields of Akita types — message ids — are classified as a whole)
+	tainted := map[string]bool{}
+	for _, cs := range clocks {
+		if cs.kind == "field" {
+			tainted[cs.consumer] = true
+		}
+	}
+	for _, rd := range allReads {
+		if tainted[rd.field] && rd.use != "write" && !strings.HasPrefix(rd.field, "sim.") && !strings.HasPrefix(rd.field, "mem.") {
+			reads = append(reads, rd)
+		}
+	}
+
+	orderFields := map[string]bool{}
+	for _, m := range maps {
+		for _, f := range m.fieldsWritten {
+			orderFields[f] = true
+		}
+	}
+	var orderUses []fieldRead
+	for _, rd := range allReads {
+		if orderFields[rd.field] {
+			orderUses = append(orderUses, rd)
+		}
+	}
+
+	var b strings.Builder
+	b.WriteString("-- GENERATED by /verif/translate (sites) from the simulator packages under amd/; do not edit\nnamespace Gen\n\n")
+	b.WriteString(`/-- one ` + "`range`" + ` over a map (or other enumeration of a map): where it is, what the loop is
+    (normalised source, the statements after it that use what it wrote, same-package callees) and
+    ` + "`hash`" + ` over all of that — an edit of the loop, of the sort that follows it or of a callee changes it -/
+structure MapSite where
+  file : String
+  fn : String
+  operand : String
+  key : String
+  val : String
+  hash : String
+  body : String
+  context : String
+  writes : List String
+  locals : List String
+  calls : List String
+  exits : List String
+  callees : List String
+  fieldsWritten : List String
+deriving Repr, DecidableEq
+
+/-- one use of a wall-clock / random / per-process source and what consumes the value -/
+structure ClockSite where
+  file : String
+  fn : String
+  what : String
+  kind : String
+  consumer : String
+  stmt : String
+deriving Repr, DecidableEq
+
+/-- one ` + "`go`" + ` statement: the started function's source hash and its synchronisation skeleton,
+    a list of (operation, argument): lock / unlock / defer-unlock m, write field, recv / send channel,
+    call / go / defer-call function, open block-kind, close, term return|continue|break -/
+structure GoSite where
+  file : String
+  fn : String
+  started : String
+  hash : String
+  skeleton : List (String × String)
+deriving Repr, DecidableEq
+
+/-- one use of a struct field -/
+structure FieldUse where
+  field : String
+  file : String
+  fn : String
+  use : String
+  callee : String
+  calleePkg : String
+  stmt : String
+deriving Repr, DecidableEq
+
+`)
+	fmt.Fprintf(&b, "def mapSiteInfos : List MapSite := [\n")
+	for i, s := range maps {
+		sep := ","
+		if i == len(maps)-1 {
+			sep = ""
+		}
+		fmt.Fprintf(&b, "  { file := %s, fn := %s, operand := %s, key := %s, val := %s,\n    hash := %s,\n    body := %s,\n    context := %s,\n    writes := %s, locals := %s, calls := %s, exits := %s, callees := %s, fieldsWritten := %s }%s\n",
+			leanStr(s.file), leanStr(s.fn), leanStr(s.operand), leanStr(s.key), leanStr(s.val), leanStr(s.hash), leanStr(s.body), leanStr(s.context),
+			leanStrList(s.writes), leanStrList(s.locals), leanStrList(s.calls), leanStrList(s.exits), leanStrList(s.callees), leanStrList(s.fieldsWritten), sep)
+	}
+	b.WriteString("]\n\n")
+	b.WriteString("/-- every `range` whose operand has map type: (file, enclosing function, operand) -/\ndef mapSites : List (String × String × String) := mapSiteInfos.map fun s => (s.file, s.fn, s.operand)\n\n")
+
+	fmt.Fprintf(&b, "def clockSiteInfos : List ClockSite := [\n")
+	for i, s := range clocks {
+		sep := ","
+		if i == len(clocks)-1 {
+			sep = ""
+		}
+		fmt.Fprintf(&b, "  { file := %s, fn := %s, what := %s, kind := %s, consumer := %s,\n    stmt := %s }%s\n",
+			leanStr(s.file), leanStr(s.fn), leanStr(s.what), leanStr(s.kind), leanStr(s.consumer), leanStr(s.stmt), sep)
+	}
+	b.WriteString("]\n\n")
+	b.WriteString("/-- every use of a wall-clock, random or per-process source: (file, function or `import`, what) -/\ndef clockSites : List (String × String × String) := clockSiteInfos.map fun s => (s.file, s.fn, s.what)\n\n")
+
+	fmt.Fprintf(&b, "/-- every read of a simulator-declared field that receives such a value: `use` is read | write | arg (then `callee` / `calleePkg` say of which call) -/\ndef taintedFieldReads : List FieldUse := [\n")
+	for i, s := range reads {
+		sep := ","
+		if i == len(reads)-1 {
+			sep = ""
+		}
+		fmt.Fprintf(&b, "  { field := %s, file := %s, fn := %s, use := %s, callee := %s, calleePkg := %s,\n    stmt := %s }%s\n", leanStr(s.field), leanStr(s.file), leanStr(s.fn), leanStr(s.use), leanStr(s.callee), leanStr(s.pkg), leanStr(s.stmt), sep)
+	}
+	b.WriteString("]\n\n")
+
+	fmt.Fprintf(&b, "/-- every use (read, write, argument) of a struct field that a map loop (or a function it calls) assigns — the only places where the iteration order could be carried on: `use` is read | write | arg (then `callee` / `calleePkg` say of which call) -/\ndef orderFieldUses : List FieldUse := [\n")
+	for i, s := range orderUses {
+		sep := ","
+		if i == len(orderUses)-1 {
+			sep = ""
+		}
+		fmt.Fprintf(&b, "  { field := %s, file := %s, fn := %s, use := %s, callee := %s, calleePkg := %s,\n    stmt := %s }%s\n", leanStr(s.field), leanStr(s.file), leanStr(s.fn), leanStr(s.use), leanStr(s.callee), leanStr(s.pkg), leanStr(s.stmt), sep)
+	}
+	b.WriteString("]\n\n")
+
+	fmt.Fprintf(&b, "def goSiteInfos : List GoSite := [\n")
+	for i, s := range gos {
+		sep := ","
+		if i == len(gos)-1 {
+			sep = ""
+		}
+		fmt.Fprintf(&b, "  { file := %s, fn := %s, started := %s, hash := %s,\n    skeleton := %s }%s\n",
+			leanStr(s.file), leanStr(s.fn), leanStr(s.started), leanStr(s.hash), leanPairList(s.skeleton), sep)
+	}
+	b.WriteString("]\n\n")
+	b.WriteString("/-- every `go` statement: (file, enclosing function, started function) -/\ndef goSites : List (String × String × String) := goSiteInfos.map fun s => (s.file, s.fn, s.started)\n\n")
+
+	emit := func(name, doc string, l []simpleSite) {
+		fmt.Fprintf(&b, "/-- %s -/\ndef %s : List (String × String × String) := [\n", doc, name)
 		for i, s := range l {
 			sep := ","
 			if i == len(l)-1 {
 				sep = ""
 			}
-			fmt.Fprintf(b, "  (%s, %s, %s)%s\n", leanStr(s.file), leanStr(s.fn), leanStr(s.what), sep)
+			fmt.Fprintf(&b, "  (%s, %s, %s)%s\n", leanStr(s.file), leanStr(s.fn), leanStr(s.what), sep)
 		}
 		b.WriteString("]\n\n")
 	}
-	var b strings.Builder
-	b.WriteString("-- GENERATED by /verif/translate (sites) from the simulator packages under amd/; do not edit\nnamespace Gen\n\n")
-	emit(&b, "mapSites", "every `range` whose operand has map type: (file, enclosing function, operand)", maps)
-	emit(&b, "clockSites", "every use of a wall-clock or random source: (file, function or `import`, what)", clocks)
-	emit(&b, "goSites", "every `go` statement: (file, enclosing function, started function)", gos)
+	fmt.Fprintf(&b, "/-- map iteration in the Akita packages the runner links: (file, function, operand, source hash) -/\ndef depMapSites : List (String × String × String × String) := [\n")
+	for i, s := range depMaps {
+		sep := ","
+		if i == len(depMaps)-1 {
+			sep = ""
+		}
+		fmt.Fprintf(&b, "  (%s, %s, %s, %s)%s\n", leanStr(depName(s.file)), leanStr(s.fn), leanStr(s.operand), leanStr(s.hash), sep)
+	}
+	b.WriteString("]\n\n")
+	fmt.Fprintf(&b, "/-- wall-clock / random / per-process sources in those packages: (file, function, what, consumer kind, consumer) -/\ndef depClockSites : List (String × String × String × String × String) := [\n")
+	for i, s := range depClocks {
+		sep := ","
+		if i == len(depClocks)-1 {
+			sep = ""
+		}
+		fmt.Fprintf(&b, "  (%s, %s, %s, %s, %s)%s\n", leanStr(depName(s.file)), leanStr(s.fn), leanStr(s.what), leanStr(s.kind), leanStr(s.consumer), sep)
+	}
+	b.WriteString("]\n\n")
+	fmt.Fprintf(&b, "/-- `go` statements in those packages: (file, function, started) -/\ndef depGoSites : List (String × String × String) := [\n")
+	for i, s := range depGos {
+		sep := ","
+		if i == len(depGos)-1 {
+			sep = ""
+		}
+		fmt.Fprintf(&b, "  (%s, %s, %s)%s\n", leanStr(depName(s.file)), leanStr(s.fn), leanStr(s.started), sep)
+	}
+	b.WriteString("]\n\n")
+
+	emit("selectSites", "every `select` with at least two communications (Go picks among ready ones at random): (file, function, cases)", selects)
+	emit("stringOrderSites", "every ordering of strings (`<` on strings, sort.Strings, strings.Compare): (file, function, expression)", strOrders)
 	b.WriteString("end Gen\n")
 	writeIfChanged("Sites.lean", b.String())
-	fmt.Printf("NOTE sites: %d map ranges, %d clock/random uses, %d go statements in %d simulator directories\n", len(maps), len(clocks), len(gos), len(dirs))
+	fmt.Printf("NOTE sites: %d map ranges, %d clock/random uses, %d go statements, %d multi-way selects, %d string orderings in %d simulator directories; %d / %d / %d in %d linked Akita packages\n",
+		len(maps), len(clocks), len(gos), len(selects), len(strOrders), len(dirs), len(depMaps), len(depClocks), len(depGos), len(depDirs))
 }
